@@ -219,12 +219,195 @@ class SwapEarlyReturn(_Blocks):
         return b
 
 
+def _negate(t):
+    if isinstance(t, ast.UnaryOp) and isinstance(t.op, ast.Not):
+        return t.operand
+    if isinstance(t, ast.Compare) and len(t.ops) == 1 and type(t.ops[0]) in (ast.In, ast.NotIn, ast.Is, ast.IsNot, ast.Eq, ast.NotEq):
+        return ast.Compare(left=t.left, ops=[InvertIf.NEG[type(t.ops[0])]()], comparators=t.comparators)
+    return ast.UnaryOp(op=ast.Not(), operand=t)
+
+
+class WhileTrue(ast.NodeTransformer):
+    """`while c: BODY` (no else, c not a constant) -> `while True:` / `if not c: break` / BODY"""
+    def visit_While(self, n):
+        self.generic_visit(n)
+        if not n.orelse and not isinstance(n.test, ast.Constant):
+            brk = ast.copy_location(ast.If(test=_negate(n.test), body=[ast.copy_location(ast.Break(), n)], orelse=[]), n)
+            return ast.copy_location(ast.While(test=ast.Constant(value=True), body=[brk] + n.body, orelse=[]), n)
+        return n
+
+
+class EarlyContinue(ast.NodeTransformer):
+    """last statement of a for/while body is `if c: BODY` (no else, BODY longer than one statement) -> `if not c: continue` / BODY"""
+    def _loop(self, n):
+        self.generic_visit(n)
+        last = n.body[-1] if n.body else None
+        if isinstance(last, ast.If) and not last.orelse and len(last.body) > 1:
+            guard = ast.copy_location(ast.If(test=_negate(last.test), body=[ast.copy_location(ast.Continue(), last)], orelse=[]), last)
+            n.body = n.body[:-1] + [guard] + last.body
+        return n
+    visit_For = visit_While = _loop
+
+
+class MergeAnd(ast.NodeTransformer):
+    """`if a:` whose whole body is `if b: BODY` (neither has an else) -> `if a and b: BODY`"""
+    def visit_If(self, n):
+        self.generic_visit(n)
+        if not n.orelse and len(n.body) == 1 and isinstance(n.body[0], ast.If) and not n.body[0].orelse \
+                and not any(isinstance(x, ast.NamedExpr) for x in ast.walk(n.test)):
+            inner = n.body[0]
+            vals = (n.test.values if isinstance(n.test, ast.BoolOp) and isinstance(n.test.op, ast.And) else [n.test]) + \
+                   (inner.test.values if isinstance(inner.test, ast.BoolOp) and isinstance(inner.test.op, ast.And) else [inner.test])
+            return ast.copy_location(ast.If(test=ast.BoolOp(op=ast.And(), values=vals), body=inner.body, orelse=[]), n)
+        return n
+
+
+class ReturnNone(ast.NodeTransformer):
+    """bare `return` -> `return None`"""
+    def visit_Return(self, n):
+        if n.value is None:
+            n.value = ast.copy_location(ast.Constant(value=None), n)
+        return n
+
+
+class CompToLoop(ast.NodeTransformer):
+    """inside functions: `x = [E for v in IT if C...]` -> `acc__N = []` / `for v in IT: if C: acc__N.append(E)` / `x = acc__N`
+    (one generator, plain Name loop variable that occurs nowhere else in the function, no nested scopes in E/C that could capture it)"""
+    def __init__(self):
+        self.n = 0
+
+    def visit_FunctionDef(self, fn):
+        self.generic_visit(fn)
+        names = {}
+        for x in ast.walk(fn):
+            if isinstance(x, ast.Name):
+                names[x.id] = names.get(x.id, 0) + 1
+            elif isinstance(x, ast.arg):
+                names[x.arg] = names.get(x.arg, 0) + 1
+        outer = self
+
+        class R(_Blocks):
+            def block(self_, b):
+                out = []
+                for st in b:
+                    v = st.value if isinstance(st, ast.Assign) and len(st.targets) == 1 else None
+                    if isinstance(v, ast.ListComp) and len(v.generators) == 1 and not v.generators[0].is_async and isinstance(v.generators[0].target, ast.Name) \
+                            and isinstance(st.targets[0], (ast.Name, ast.Attribute)) \
+                            and not any(isinstance(x, (ast.Lambda, ast.ListComp, ast.SetComp, ast.DictComp, ast.GeneratorExp, ast.Yield, ast.YieldFrom, ast.Await, ast.NamedExpr)) for part in [v.elt, *v.generators[0].ifs, v.generators[0].iter] for x in ast.walk(part)):
+                        var = v.generators[0].target.id
+                        inside = sum(1 for x in ast.walk(v) if isinstance(x, ast.Name) and x.id == var)
+                        if names.get(var, 0) == inside:
+                            outer.n += 1
+                            acc = f"acc__{outer.n}"
+                            body = [ast.Expr(value=ast.Call(func=ast.Attribute(value=ast.Name(id=acc, ctx=ast.Load()), attr="append", ctx=ast.Load()), args=[v.elt], keywords=[]))]
+                            for c in reversed(v.generators[0].ifs):
+                                body = [ast.If(test=c, body=body, orelse=[])]
+                            out.append(ast.copy_location(ast.Assign(targets=[ast.Name(id=acc, ctx=ast.Store())], value=ast.List(elts=[], ctx=ast.Load()), lineno=st.lineno), st))
+                            out.append(ast.copy_location(ast.For(target=ast.Name(id=var, ctx=ast.Store()), iter=v.generators[0].iter, body=body, orelse=[], lineno=st.lineno), st))
+                            out.append(ast.copy_location(ast.Assign(targets=st.targets, value=ast.Name(id=acc, ctx=ast.Load()), lineno=st.lineno), st))
+                            continue
+                    out.append(st)
+                return out
+
+            def visit_FunctionDef(self_, inner):
+                return inner if inner is not fn else _Blocks.generic_visit(self_, inner)
+            visit_AsyncFunctionDef = visit_FunctionDef
+            visit_ClassDef = lambda self_, c: c
+        R().visit(fn)
+        return fn
+    visit_AsyncFunctionDef = visit_FunctionDef
+
+
+class CondTemp(ast.NodeTransformer):
+    """inside functions: `if E: ...` (a statement of a block, not an `elif`) with E a comparison / boolean operation / call
+    -> `cond__N = E` / `if cond__N: ...`"""
+    def __init__(self):
+        self.n = 0
+
+    def visit_FunctionDef(self, fn):
+        self.generic_visit(fn)
+        outer = self
+
+        class R(_Blocks):
+            def block(self_, b):
+                out = []
+                for st in b:
+                    if isinstance(st, ast.If) and isinstance(st.test, (ast.Compare, ast.BoolOp, ast.Call)) and not any(isinstance(x, (ast.NamedExpr, ast.Yield, ast.YieldFrom, ast.Await)) for x in ast.walk(st.test)):
+                        outer.n += 1
+                        c = f"cond__{outer.n}"
+                        out.append(ast.copy_location(ast.Assign(targets=[ast.Name(id=c, ctx=ast.Store())], value=st.test, lineno=getattr(st, "lineno", 1)), st))
+                        st.test = ast.copy_location(ast.Name(id=c, ctx=ast.Load()), st)
+                    out.append(st)
+                return out
+
+            def generic_visit(self_, node):
+                # an `elif` is the sole statement of an orelse list: do not treat it as a block statement
+                ast.NodeTransformer.generic_visit(self_, node)
+                for fld in ("body", "orelse", "finalbody"):
+                    blk = getattr(node, fld, None)
+                    if isinstance(blk, list) and blk and isinstance(blk[0], ast.stmt):
+                        if fld == "orelse" and isinstance(node, ast.If) and len(blk) == 1 and isinstance(blk[0], ast.If):
+                            continue
+                        setattr(node, fld, self_.block(blk))
+                return node
+
+            def visit_FunctionDef(self_, inner):
+                return inner if inner is not fn else self_.generic_visit(inner)
+            visit_AsyncFunctionDef = visit_FunctionDef
+            visit_ClassDef = lambda self_, c: c
+        R().visit(fn)
+        return fn
+    visit_AsyncFunctionDef = visit_FunctionDef
+
+
+class IfExpToIf(_Blocks):
+    """`x = a if c else b` -> `if c: x = a` / `else: x = b`;  `return a if c else b` -> `if c: return a` / `return b`"""
+    def block(self, b):
+        out = []
+        for st in b:
+            if isinstance(st, ast.Assign) and len(st.targets) == 1 and isinstance(st.targets[0], ast.Name) and isinstance(st.value, ast.IfExp):
+                v = st.value
+                out.append(ast.copy_location(ast.If(test=v.test, body=[ast.copy_location(ast.Assign(targets=st.targets, value=v.body, lineno=st.lineno), st)],
+                                                    orelse=[ast.copy_location(ast.Assign(targets=[ast.Name(id=st.targets[0].id, ctx=ast.Store())], value=v.orelse, lineno=st.lineno), st)]), st))
+            elif isinstance(st, ast.Return) and isinstance(st.value, ast.IfExp):
+                v = st.value
+                out.append(ast.copy_location(ast.If(test=v.test, body=[ast.copy_location(ast.Return(value=v.body), st)], orelse=[]), st))
+                out.append(ast.copy_location(ast.Return(value=v.orelse), st))
+            else:
+                out.append(st)
+        return out
+
+    def visit_ClassDef(self, c):
+        # class-level statements keep their form (dataclass field defaults etc.); methods are visited
+        for i, st in enumerate(c.body):
+            if isinstance(st, (ast.FunctionDef, ast.AsyncFunctionDef, ast.ClassDef)):
+                c.body[i] = self.visit(st)
+        return c
+
+
+class ChainSplit(ast.NodeTransformer):
+    """`a OP b OP c` with a side-effect-free middle operand (name / attribute path / constant) -> `a OP b and b OP c`"""
+    def visit_Compare(self, n):
+        self.generic_visit(n)
+        if len(n.ops) == 2:
+            mid = n.comparators[0]
+            pure = lambda e: isinstance(e, (ast.Name, ast.Constant)) or (isinstance(e, ast.Attribute) and pure(e.value))
+            if pure(mid) and isinstance(mid, (ast.Name, ast.Constant)):
+                import copy
+                return ast.copy_location(ast.BoolOp(op=ast.And(), values=[ast.Compare(left=n.left, ops=[n.ops[0]], comparators=[mid]),
+                                                                           ast.Compare(left=copy.deepcopy(mid), ops=[n.ops[1]], comparators=[n.comparators[1]])]), n)
+        return n
+
+
 def main():
     mode, dest = sys.argv[1], sys.argv[2]
     shutil.rmtree(f"{dest}/happysimulator", ignore_errors=True)
     os.makedirs(dest, exist_ok=True)
     shutil.copytree("/repo/happysimulator", f"{dest}/happysimulator", ignore=shutil.ignore_patterns("__pycache__"))
     n = 0
+    known = {'reformat', 'rename-locals', 'flip-compare', 'aug-expand', 'invert-if', 'all', 'split-and', 'else-wrap', 'else-unwrap', 'ret-temp', 'swap-minmax', 'swap-early-return', 'all2', 'comp-to-loop', 'cond-temp', 'ifexp-to-if', 'chain-split', 'all3', 'while-true', 'early-continue', 'merge-and', 'return-none', 'all4'}
+    if mode not in known:
+        sys.exit(f'unknown mode {mode}')
     for dp, _, fs in os.walk(f"{dest}/happysimulator"):
         for f in fs:
             if not f.endswith(".py"):
@@ -252,6 +435,27 @@ def main():
                 t = SwapMinMax().visit(t)
             elif mode == "swap-early-return":
                 t = SwapEarlyReturn().visit(t)
+            elif mode == "comp-to-loop":
+                t = CompToLoop().visit(t)
+            elif mode == "cond-temp":
+                t = CondTemp().visit(t)
+            elif mode == "ifexp-to-if":
+                t = IfExpToIf().visit(t)
+            elif mode == "chain-split":
+                t = ChainSplit().visit(t)
+            elif mode == "while-true":
+                t = WhileTrue().visit(t)
+            elif mode == "early-continue":
+                t = EarlyContinue().visit(t)
+            elif mode == "merge-and":
+                t = MergeAnd().visit(t)
+            elif mode == "return-none":
+                t = ReturnNone().visit(t)
+            elif mode == "all4":
+                t = ReturnNone().visit(MergeAnd().visit(EarlyContinue().visit(WhileTrue().visit(t))))
+            elif mode == "all3":
+                t = ast.fix_missing_locations(ChainSplit().visit(IfExpToIf().visit(CompToLoop().visit(t))))
+                t = CondTemp().visit(t)
             elif mode == "all2":
                 t = RetTemp().visit(SwapMinMax().visit(ElseWrap().visit(SplitAnd().visit(t))))
             elif mode == "all":
